@@ -93,6 +93,8 @@ inline thread_local bool g_unclamped = false;
 // a backend is not obliged to scrub its own fields in impl_destroy_sandbox: with this knob the destroyed instance keeps
 // describing its old memory range (its memory is unmapped and its address slot is free for the next sandbox)
 inline bool g_keep_stale_fields = false;
+// what the sandbox's own `free` does to the block it gets back: overwrite its first g_free_poison bytes (0 = nothing)
+inline size_t g_free_poison = 0;
 
 } // namespace vsbx
 
@@ -274,7 +276,14 @@ protected:
     brk += r;
     return ret;
   }
-  inline void impl_free_in_sandbox(T_PointerType) { n_free++; }
+  inline void impl_free_in_sandbox(T_PointerType p)
+  {
+    n_free++;
+    if (vsbx::g_free_poison) {
+      uintptr_t off = static_cast<uintptr_t>(U(p));
+      if (off < Size) std::memset(reinterpret_cast<void*>(Base + off), 0xDD, std::min<size_t>(vsbx::g_free_poison, Size - off));
+    }
+  }
 
   // only reachable on the AbiAg flavour (rlbox asks for the `can_grant_deny_access` marker first)
   template<typename T> inline T* impl_grant_access(T* src, size_t num, bool& success)
